@@ -52,6 +52,10 @@ def _depth_kernel(res, fname, mk_args, label):
         fr.len = z3.simplify(fr.len + 1)
         return UNIT
     e.model(r'^(vm::)?Vm::push_frame$', m_push_frame)
+    # the name a native's frame shows in tracebacks: the pooled stub function is renamed for every call
+    e.model(r'^(laythe_core::)?(object::)?(native::)?Native::name$', lambda e_, a, c: AbsObj(z3.BitVec('name_of_the_native', 64), 'LyStr'))
+    e.model(r'^(laythe_core::)?(object::)?(fun::)?Fun::set_name$', lambda e_, a, c: e_.path_state['events'].append(('set_name', a[1], len([x for x in e_.path_state['events'] if x[0] == 'push_frame']))) or UNIT)
+    e.model(r'^(laythe_core::)?(object::)?(fun::)?Fun::stub$', lambda e_, a, c: (e_.path_state['events'].append(('stub_created', a[1])), e_.fresh(norm_ty(c.dest_ty), e_.fresh_name('stub')))[1])
 
     def m_pop_frame(e_, a, c):
         st = e_.path_state['vm']
@@ -86,6 +90,12 @@ def _depth_kernel(res, fname, mk_args, label):
         for p in pushes:
             e.check(z3.ULT(p[1], MAXF), f'{label}: a frame is pushed only while fewer than MAX_FRAME_SIZE frames are active (call depth stays bounded on every path)',
                     {'frames_before': str(n0)})
+        if fname == 'call_native' and pushes:
+            # the frame pushed for the native is named after THIS native (tracebacks: C18), whichever native used the pooled stub before
+            named = [x for x in ev if x[0] == 'set_name' and x[2] == 0]
+            from .vmabs import object_of
+            okn = bool(named) and e.is_valid(object_of(e, named[-1][1]).id == z3.BitVec('name_of_the_native', 64))
+            e.check(okn, 'call_native: the frame of a native carries the name of that native (the pooled stub is renamed before the frame is pushed)')
         o = e.path_state['outcome']
         if outcome == 'vm_error' and o and o[0] == 'runtime_error' and not pushes and ('rejected',) not in ev:
             e.check(rt_key[:12] in str(o[1]), f'{label}: exceeding the depth limit is a runtime error (catchable), not a crash', {'outcome': str(o)})
@@ -113,7 +123,7 @@ def k2_call(res, tier):
     _depth_kernel(res, 'call', lambda e, P: [AbsObj(z3.BitVec('fun', 64), 'ObjRef<Fun>'), z3.BitVec('argc', 8)], 'call')
 
 
-@obligation('C16.K2.depth_call_native', 'C16', programs=('vm',))
+@obligation('C16.K2.depth_call_native', 'C16', programs=('vm',), also=('C18',))
 def k2_native(res, tier):
     """Vm::call_native: a native that gets its own frame (it may call back into Laythe code) is subject to the same limit, so
     recursion through native callbacks cannot grow the call depth without bound"""
